@@ -133,15 +133,15 @@ Proof.
     apply ok_apply_dmx; [exact Hok|apply (find_uni_in _ _ _ Ef)].
   - destruct (find_uni _ _); exact Hok.
   - (* RegisterForDmx *)
-    destruct (find_uni (sv_unis (st_sv st)) u) as [x|] eqn:Ef.
-    + destruct (Hok x (proj1 (find_uni_in _ _ _ Ef))) as [Hnd Hsa].
-      destruct on; cbn [fst set_sv st_sv].
-      * apply ok_reg_on; assumption.
-      * apply ok_reg_off; assumption.
-    + cbn zeta. pose proof (ok_new (st_sv st) u Hok) as Hok1.
-      destruct on; cbn [fst set_sv st_sv].
-      * apply ok_reg_on; [exact Hok1|rewrite new_uni_sinks; constructor|rewrite new_uni_sinks; intros ? []|exact Ha].
-      * apply ok_reg_off; [exact Hok1|rewrite new_uni_sinks; constructor|rewrite new_uni_sinks; intros ? []].
+    destruct on.
+    + destruct (find_uni (sv_unis (st_sv st)) u) as [x|] eqn:Ef.
+      * destruct (Hok x (proj1 (find_uni_in _ _ _ Ef))) as [Hnd Hsa].
+        cbn [fst set_sv st_sv]. apply ok_reg_on; assumption.
+      * cbn zeta. pose proof (ok_new (st_sv st) u Hok) as Hok1. cbn [fst set_sv st_sv].
+        apply ok_reg_on; [exact Hok1|rewrite new_uni_sinks; constructor|rewrite new_uni_sinks; intros ? []|exact Ha].
+    + destruct (find_uni (sv_unis (st_sv st)) u) as [x|] eqn:Ef; [|exact Hok].
+      destruct (Hok x (proj1 (find_uni_in _ _ _ Ef))) as [Hnd Hsa].
+      cbn [fst set_sv st_sv]. apply ok_reg_off; assumption.
   - destruct (find_uni _ _) as [x|] eqn:Ef; cbn [fst]; [|exact Hok].
     cbn. intros y Hy. cbn in Hy. apply in_set_uni in Hy as [->|Hy]; [|apply Hok; exact Hy].
     cbn. apply Hok. apply (find_uni_in _ _ _ Ef).
